@@ -278,6 +278,108 @@ func c08scenario(c c08cfg) *explore.Scenario {
 	return sc
 }
 
+var c08seqOps = []string{"W", "R", "Close", "SRD(zero)", "SRD(past)", "SRD(+10ms)", "idle(20ms)"}
+
+// c08sequential: every history of the stated length over writes, reads, Close and read-deadline
+// changes in ONE thread, against the blocking rule: a passed deadline fails the read with a timeout
+// until the deadline is changed (also after Close); otherwise a buffered packet is returned; otherwise
+// a closed buffer reports EOF.
+func c08sequential(steps int) *explore.Scenario {
+	sc := &explore.Scenario{Name: fmt.Sprintf("buffer sequential %d steps (Close x deadlines)", steps), Bound: 0}
+	sc.Cfg.Strict = true
+	sc.Cfg.Horizon = time.Second
+	sc.Make = func() (func(), func(*zzvsched.Exec) (string, *explore.Violation)) {
+		var script []string
+		var viol *explore.Violation
+		finished, inRead := false, false
+		body := func() {
+			b := packetio.NewBuffer()
+			queued, closed := 0, false
+			var dl time.Duration // deadline in force (virtual instant, may be negative), valid if hasDL
+			hasDL := false
+			seq := 0
+			for i := 0; i < steps+1; i++ {
+				op := "R" // every history ends with a read
+				if i < steps {
+					op = c08seqOps[zzvsched.Choose(len(c08seqOps))]
+				}
+				now := zzvsched.Elapsed()
+				passed := hasDL && dl < now
+				if op == "R" && !passed && queued == 0 && !closed && !hasDL {
+					op = "skip" // would block for ever, legitimately
+				}
+				script = append(script, op)
+				switch op {
+				case "W":
+					seq++
+					if _, err := b.Write([]byte(fmt.Sprintf("p%d", seq))); err == nil {
+						queued++
+					} else if !closed {
+						viol = &explore.Violation{Sig: "C08 seq-write", Msg: fmt.Sprintf("history %v: Write failed: %v", script, err)}
+						return
+					}
+				case "Close":
+					_ = b.Close()
+					closed = true
+				case "SRD(zero)":
+					_ = b.SetReadDeadline(time.Time{})
+					hasDL = false
+				case "SRD(past)":
+					_ = b.SetReadDeadline(zzvsched.Base.Add(now - time.Millisecond))
+					dl, hasDL = now-time.Millisecond, true
+				case "SRD(+10ms)":
+					t := zzvsched.Now().Add(10 * time.Millisecond)
+					_ = b.SetReadDeadline(t)
+					dl, hasDL = t.Sub(zzvsched.Base), true
+				case "idle(20ms)":
+					zzvsched.SleepIdle(20 * time.Millisecond)
+				case "R":
+					buf := make([]byte, 32)
+					inRead = true
+					n, err := b.Read(buf)
+					inRead = false
+					end := zzvsched.Elapsed()
+					cl := errClass(err)
+					want := ""
+					switch {
+					case passed:
+						want = "timeout"
+					case queued > 0:
+						want = "ok"
+					case closed:
+						want = "eof"
+					default:
+						want = "timeout" // a future deadline, nothing to read: released when it passes
+					}
+					if cl != want || (cl == "timeout" && end < dl) {
+						viol = &explore.Violation{Sig: "C08 seq-read-result", Msg: fmt.Sprintf("history %v: Read returned (%d, %v) at %v; deadline %v, %d packet(s) buffered, closed=%v: want %s", script, n, err, end, dl, queued, closed, want)}
+						return
+					}
+					if cl == "ok" {
+						queued--
+					}
+				}
+			}
+			finished = true
+		}
+		check := func(ex *zzvsched.Exec) (string, *explore.Violation) {
+			out := strings.Join(script, ",")
+			if len(ex.Panics) > 0 {
+				return out, &explore.Violation{Sig: "C08 panic", Msg: fmt.Sprintf("history %v: panic: %s", script, ex.Panics[0].Value)}
+			}
+			if viol != nil {
+				return out, viol
+			}
+			if !finished && inRead {
+				return out, &explore.Violation{Sig: "C08 seq-read-blocked", Msg: fmt.Sprintf("history %v: Read never returned although a deadline is set or the buffer is closed or holds a packet", script)}
+			}
+			return out, nil
+		}
+		return body, check
+	}
+	return sc
+}
+
 func init() {
 	register(&Check{
 		ID: "C08",
@@ -315,6 +417,11 @@ func init() {
 			var out []*explore.Scenario
 			for _, c := range cfgs {
 				out = append(out, c08scenario(c))
+			}
+			if tier == "quick" {
+				out = append(out, c08sequential(4))
+			} else {
+				out = append(out, c08sequential(6))
 			}
 			return out
 		},
